@@ -298,27 +298,29 @@ static int f8_ninputs (uint64_t idx) { return 3 * 4; }
 static pinput f8_input (uint64_t idx, int i) { static const int64_t n[] = {0, 1, 2, 5}, av[] = {0, 7, -1}; pinput p = {av[i % 3], n[i / 3], -1, 0, 0}; return p; }
 
 /* =============================== F9: inlining (callee x caller features) =============================== */
-static const char *F9_PT[] = {"i64", "i8", "u16", "u32", "d", "blk"};          /* parameter type */
+static const char *F9_PT[] = {"i64", "i8", "u16", "u32", "d", "blk", "blk2x16"}; /* parameter type; the last one: two 16-byte blocks in one call */
 static const char *F9_RT[] = {"i64", "i32", "u8", "i64, d"};                    /* result type(s) */
 static const int F9_PAD[] = {0, 40, 60, 190, 215};                              /* callee size padding around the two inlining thresholds */
 typedef struct { int al, rets, pt, rt, kind, pad;  int inl, loop, resmem, own, sites; } f9cfg;
 static int f9_npad (int th) { return th ? 5 : 1; }
-static uint64_t f9_count (int th) { return 6ull * 3 * 6 * 4 * 3 * f9_npad (th) * 2 * 2 * 2 * 3 * 2; }
+static uint64_t f9_count (int th) { return 6ull * 3 * 7 * 4 * 3 * f9_npad (th) * 2 * 2 * 2 * 3 * 2; }
 static f9cfg f9_decode (uint64_t idx) {
   extern int progfam_thorough; f9cfg c;
   c.sites = idx % 2; idx /= 2; c.own = idx % 3; idx /= 3; c.resmem = idx % 2; idx /= 2; c.loop = idx % 2; idx /= 2; c.inl = idx % 2; idx /= 2;
-  c.pad = idx % f9_npad (progfam_thorough); idx /= f9_npad (progfam_thorough); c.kind = idx % 3; idx /= 3; c.rt = idx % 4; idx /= 4; c.pt = idx % 6; idx /= 6; c.rets = idx % 3; idx /= 3; c.al = (int) idx;
+  c.pad = idx % f9_npad (progfam_thorough); idx /= f9_npad (progfam_thorough); c.kind = idx % 3; idx /= 3; c.rt = idx % 4; idx /= 4; c.pt = idx % 7; idx /= 7; c.rets = idx % 3; idx /= 3; c.al = (int) idx;
   return c;
 }
 static void f9_render (uint64_t idx) {
   f9cfg c = f9_decode (idx); const char *pt = F9_PT[c.pt];
   ptl = 0; S ("%s", PRELUDE);
   /* ---- callee ---- */
-  if (c.pt == 5) S ("p_g: proto %s, blk:24(p0), i64:n\ng: func %s, blk:24(p0), i64:n\n", F9_RT[c.rt], F9_RT[c.rt]);
+  if (c.pt == 6) S ("p_g: proto %s, blk:16(p0), blk:16(pq), i64:n\ng: func %s, blk:16(p0), blk:16(pq), i64:n\n", F9_RT[c.rt], F9_RT[c.rt]);
+  else if (c.pt == 5) S ("p_g: proto %s, blk:24(p0), i64:n\ng: func %s, blk:24(p0), i64:n\n", F9_RT[c.rt], F9_RT[c.rt]);
   else S ("p_g: proto %s, %s:p0, i64:n\ng: func %s, %s:p0, i64:n\n", F9_RT[c.rt], pt, F9_RT[c.rt], pt);
   S ("  local i64:t, i64:u, i64:al, i64:al2, i64:w, d:dv\n");
   if (c.al == 1) S ("  alloca al, 16\n");
   if (c.pt == 4) S ("  mov t, 9\n  dbgt G1, p0, 1.0\n  mov t, 7\nG1:\n");
+  else if (c.pt == 6) S ("  mov t, i64:(p0)\n  add t, t, i64:8(p0)\n  mul t, t, 3\n  add t, t, i64:(pq)\n  mov i64:8(pq), 99\n  add t, t, i64:8(pq)\n");
   else if (c.pt == 5) S ("  mov t, i64:(p0)\n  add t, t, i64:16(p0)\n  mov i64:8(p0), 99\n  add t, t, i64:8(p0)\n");
   else S ("  mul t, p0, 3\n  add t, t, 1\n");
   if (c.al == 2) S ("GA:\n  alloca al, 32\n");
@@ -330,6 +332,7 @@ static void f9_render (uint64_t idx) {
   for (int i = 0; i < F9_PAD[c.pad]; i++) S ("  add w, t, %d\n", i);
   if (c.kind == 1) S ("  call p_e1, e1, t, t\n");
   if (c.kind == 2) { S ("  ble GR, n, 0\n  sub u, n, 1\n");
+    if (c.pt == 6) S ("  call p_g, g, w%s, blk:16(p0), blk:16(pq), u\n", c.rt == 3 ? ", dv" : ""); else
     if (c.pt == 5) S ("  call p_g, g, w%s, blk:24(p0), u\n", c.rt == 3 ? ", dv" : ""); else S ("  call p_g, g, w%s, p0, u\n", c.rt == 3 ? ", dv" : "");
     S ("  add t, t, w\nGR:\n"); }
   if (c.al) S ("  add t, t, i64:(al)\n");
@@ -345,8 +348,8 @@ static void f9_render (uint64_t idx) {
   if (c.own == 1) S ("  mov i64:(oa), a\n  mov i64:24(oa), b\n");
   if (c.loop) S ("  mov k, 3\nLOOP:\n");
   for (int site = 0; site <= c.sites; site++) {
-    const char *res = c.resmem ? "i64:40(q)" : "r0"; char arg[32];
-    if (c.pt == 4) snprintf (arg, sizeof arg, "%s", site ? "y" : "x"); else if (c.pt == 5) snprintf (arg, sizeof arg, "blk:24(m)"); else snprintf (arg, sizeof arg, "%s", site ? "b" : "a");
+    const char *res = c.resmem ? "i64:40(q)" : "r0"; char arg[48];
+    if (c.pt == 4) snprintf (arg, sizeof arg, "%s", site ? "y" : "x"); else if (c.pt == 6) snprintf (arg, sizeof arg, "blk:16(m), blk:16(q)"); else if (c.pt == 5) snprintf (arg, sizeof arg, "blk:24(m)"); else snprintf (arg, sizeof arg, "%s", site ? "b" : "a");
     S ("  %s p_g, g, %s%s, %s, n2\n", c.inl ? "inline" : "call", res, c.rt == 3 ? ", d0" : "", arg);
     if (c.resmem) S ("  mov r0, i64:40(q)\n");
     S ("  mul r, r, 5\n  add r, r, r0\n");
@@ -355,6 +358,7 @@ static void f9_render (uint64_t idx) {
   if (c.loop) S ("  sub k, k, 1\n  bgt LOOP, k, 0\n");
   if (c.own == 1) S ("  add r, r, i64:(oa)\n  add r, r, i64:24(oa)\n");
   if (c.pt == 5) S ("  add r, r, i64:8(m)\n"); /* the callee's write to its block copy must not be visible */
+  if (c.pt == 6) S ("  add r, r, i64:8(q)\n  add r, r, i64:(m)\n");
   S ("  ret r\n"); end_func ();
 }
 static int f9_ninputs (uint64_t idx) { return 6 * 3; }
